@@ -142,6 +142,14 @@ impl<C: CellType> BcInterpreter<C> {
     }
 }
 
+#[cfg(hpbf_verif)]
+impl<C: CellType> BcInterpreter<C> {
+    /// Verification hook: the bytecode this interpreter executes.
+    pub fn verif_bytecode(&self) -> &Program<C> {
+        &self.bytecode
+    }
+}
+
 impl<C: CellType> Executor<'_, C> for BcInterpreter<C> {
     fn create(code: &str, opt: u32) -> Result<Self, Error> {
         let mut program = ir::Program::<C>::parse(code)?;
